@@ -1,5 +1,6 @@
 import CallbagModel.Inv.XViols
 import CallbagModel.Inv.Combine
+import CallbagModel.Inv.ComposeSafe
 import CallbagModel.Inv.Concat
 import CallbagModel.Inv.Flatten
 import CallbagModel.Inv.ForEach
@@ -68,6 +69,10 @@ theorem C03_pipe_of_two_relays {σ₁ σ₂ α β γ : Type} (k₁ : Relay.Kind 
     ∀ s, SReach (compose (Relay.machine k₁) (Relay.machine k₂)) s → SafeFor 3 s :=
   fun s hs => safeFor_of_basicSafe _ s hs (Fuse.compose_relay_basicSafe k₁ k₂ h₁ h₂ s hs) 3 (by decide)
 
+theorem C03_pipeline {S1 L1 S2 L2 α β γ : Type} {M1 : Machine S1 L1 α β} {M2 : Machine S2 L2 β γ} (P1 : Pipeable M1) (P2 : Pipeable M2) :
+    ∀ s, SReach (compose M1 M2) s → SafeFor 3 s :=
+  fun s hs => safeFor_of_basicSafe _ s hs ((P1.compose P2).safe s hs) 3 (by decide)
+
 
 /-! ## What the monitor verdict means, in terms of the trace alone
 
@@ -124,6 +129,10 @@ theorem C03_pipe_of_two_relays_readable {σ₁ σ₂ α β γ : Type} (k₁ : Re
     (h₁ : k₁.slotted = false → ∀ s a, (k₁.xfer s a).2 ≠ none) (h₂ : k₂.slotted = false → ∀ s b, (k₂.xfer s b).2 ≠ none) :
     ∀ s, SReach (compose (Relay.machine k₁) (Relay.machine k₂)) s → ∀ k, DisposalRespected k s.tr :=
   fun s hs k => (readable_of_noViols hs (Fuse.compose_relay_basicSafe k₁ k₂ h₁ h₂ s hs).1 k).2.2
+
+theorem C03_pipeline_readable {S1 L1 S2 L2 α β γ : Type} {M1 : Machine S1 L1 α β} {M2 : Machine S2 L2 β γ} (P1 : Pipeable M1) (P2 : Pipeable M2) :
+    ∀ s, SReach (compose M1 M2) s → ∀ k, DisposalRespected k s.tr :=
+  fun s hs k => (readable_of_noViols hs ((P1.compose P2).safe s hs).1 k).2.2
 /-- `combine!`: the full phase-level safety statement is false (known findings KF2, KF3: messages to members that are not
 live, a C04 matter); what is proved is that those are the ONLY phase-level violations, hence C03 holds in full. -/
 theorem C03_combine {α : Type} (n : Nat) :
